@@ -21,7 +21,20 @@ POOL = {
     "B0": (["C", "H"], ["CH"], (-1.0, -1.0), "GAS_TWOBODY"),
     "B1": (["H", "C"], ["CH"], (-1.0, -1.0), "GAS_TWOBODY"),
 }
-IDS = list(POOL)
+# second pool: permutations around the electron (two spellings) and lower-case-labelled species, where the
+# canonical ordering used by hash/format must not depend on the order the species were given in
+POOL.update(
+    {
+        "E0": (["H+", "E"], ["H"], (-1.0, -1.0), "GAS_TWOBODY"),
+        "E1": (["E", "H+"], ["H"], (-1.0, -1.0), "GAS_TWOBODY"),
+        "O0": (["oH2+", "e-"], ["oH2", "H"], (-1.0, -1.0), "GAS_TWOBODY"),
+        "O1": (["e-", "oH2+"], ["H", "oH2"], (-1.0, -1.0), "GAS_TWOBODY"),
+        "S0": (["He+", "E"], ["He"], (-1.0, -1.0), "GAS_TWOBODY"),
+        "S1": (["E", "He+"], ["He"], (-1.0, -1.0), "GAS_TWOBODY"),
+    }
+)
+IDS2 = ["E0", "E1", "O0", "O1", "S0", "S1", "A0"]
+IDS = [k for k in POOL if k not in ("E0", "E1", "O0", "O1", "S0", "S1")]
 MODES = [None, "brief", "minimal", "short"]
 
 
@@ -131,6 +144,7 @@ def run_chunk(lists):
 def run(ctx):
     nmax = 4 if ctx.tier == "quick" else 5
     lists = [l for n in range(1, nmax + 1) for l in itertools.product(IDS, repeat=n)]
+    lists += [l for n in range(2, 5) for l in itertools.product(IDS2, repeat=n)]
     chunks = [lists[i : i + 300] for i in range(0, len(lists), 300)]
     tot = judged = skipped = 0
     for n, j, s, viols in ctx.pmap(run_chunk, chunks):
